@@ -420,9 +420,33 @@ pub fn ntru_gen(
             continue;
         }
 
+        // f and g must fit the fixed-width fields of the secret key encoding
+        let fg_limit: i16 = match n {
+            1024 => 15,
+            512 => 31,
+            256 | 128 => 63,
+            _ => 127,
+        };
+        if f.coefficients
+            .iter()
+            .chain(g.coefficients.iter())
+            .any(|c| c.abs() > fg_limit)
+        {
+            continue;
+        }
+
         if let Some((capital_f, capital_g)) =
             ntru_solve_entrypoint(f.map(|&i| i as i32), g.map(|&i| i as i32))
         {
+            // and so must F and G (8 bits each in the reference encoding)
+            if capital_f
+                .coefficients
+                .iter()
+                .chain(capital_g.coefficients.iter())
+                .any(|c| c.abs() > 127)
+            {
+                continue;
+            }
             return (
                 f,
                 g,
